@@ -405,6 +405,10 @@ func (gen *Generator) GenerateShortCircuit(or bool, args []Sexp) error {
 
 	for i := size - 2; i >= 0; i-- {
 		subgen = gen.NewSubGenerator()
+		// not in tail position, but inside the same scopes and function:
+		// a break or continue in this operand must pop those scopes too.
+		subgen.scopes = gen.scopes
+		subgen.funcname = gen.funcname
 		err = subgen.Generate(args[i])
 		if err != nil {
 			return err
